@@ -13,6 +13,10 @@ import (
 	"io"
 	"log/slog"
 	"os"
+	"runtime"
+	"strings"
+	"sync/atomic"
+	"time"
 )
 
 type input struct {
@@ -76,14 +80,13 @@ func main() {
 		res.Notes = append(res.Notes, "geometry ok")
 	case "replay":
 		for i := range inp.Histories {
+			progress.Store(int64(i))
 			replayHistory(inp.Profile, &inp.Histories[i], res, *verbose)
 		}
 	default:
 		fmt.Fprintln(os.Stderr, "unknown command", os.Args[1])
 		os.Exit(2)
 	}
-	closers.Wait()
-	hostClose()
 	enc, _ := json.MarshalIndent(res, "", " ")
 	if *out == "" {
 		os.Stdout.Write(enc)
@@ -92,4 +95,51 @@ func main() {
 		fmt.Fprintln(os.Stderr, err)
 		os.Exit(2)
 	}
+	// the verdict is on disk; closing the engine is housekeeping and must not be able to hang the check
+	done := make(chan struct{})
+	go func() {
+		closers.Wait()
+		hostClose()
+		close(done)
+	}()
+	select {
+	case <-done:
+	case <-time.After(20 * time.Second):
+		hostRemove()
+	}
+}
+
+// watchdog: a history that does not finish within minutes is an engine/gateway hang -- say where
+var progress atomic.Int64
+
+func init() {
+	limit := 4 * time.Minute
+	if v, err := time.ParseDuration(os.Getenv("VGATEWAY_WATCHDOG")); err == nil && v > 0 {
+		limit = v
+	}
+	go func() {
+		last, since := int64(-1), time.Now()
+		for {
+			time.Sleep(time.Second)
+			if cur := progress.Load(); cur != last {
+				last, since = cur, time.Now()
+			} else if time.Since(since) > limit {
+				buf := make([]byte, 4<<20)
+				n := runtime.Stack(buf, true)
+				msg := fmt.Sprintf("watchdog: history #%d has been running for %v\n%s\n", cur, time.Since(since), buf[:n])
+				if f := os.Getenv("VGATEWAY_DUMP"); f != "" {
+					_ = os.WriteFile(fmt.Sprintf("%s.%d", f, os.Getpid()), []byte(msg), 0o644)
+				}
+				// the interesting goroutines are the blocked ones: print those first, the stderr tail may be cut
+				for _, g := range strings.Split(string(buf[:n]), "\n\n") {
+					if strings.Contains(g, "minutes]") && !strings.Contains(g, "AsyncCompactor") && !strings.Contains(g, "IO wait") {
+						fmt.Fprintln(os.Stderr, g)
+						fmt.Fprintln(os.Stderr)
+					}
+				}
+				fmt.Fprintf(os.Stderr, "watchdog: history #%d has been running for %v\n", cur, time.Since(since))
+				os.Exit(4)
+			}
+		}
+	}()
 }
